@@ -15,7 +15,8 @@ functions they executed, and the log of the counting object loaders.
 
 Nothing of plumpy is changed: the process classes below are ordinary user subclasses (they override `init`,
 `load_instance_state` and their step functions to leave a trace; Late also `on_finished`; Chain is a WorkChain that keeps its
-working data in `self.ctx`), the loaders are ordinary ObjectLoader subclasses.
+working data in `self.ctx`; Opt declares its only input port optional and without a default, so that an instance constructed
+without arguments has EMPTY parsed inputs, and reads `self.inputs` in run), the loaders are ordinary ObjectLoader subclasses.
 """
 import asyncio
 import logging
@@ -57,11 +58,15 @@ _SILENT = [0]            # > 0 while the harness itself recreates processes to l
 
 class _TracedMixin:
     CLS = '-'
+    OPTIONAL_INPUT = False       # True: the port v is optional and has no default (ParsedInputs of the specification)
 
     @classmethod
     def define(cls, spec):
         super().define(spec)
-        spec.input('v', valid_type=int, default=0)
+        if cls.OPTIONAL_INPUT:
+            spec.input('v', valid_type=int, required=False)
+        else:
+            spec.input('v', valid_type=int, default=0)
         spec.outputs.dynamic = True
 
     def load_instance_state(self, saved_state, load_context):
@@ -130,6 +135,18 @@ class LateProc(_Traced):
         raise StoreFail('could not store the results')
 
 
+class OptProc(_Traced):
+    """Its only input is optional and has no default: constructed without arguments its parsed inputs are an empty (but
+    existing) mapping, which run() reads the way user code does."""
+    CLS = 'Opt'
+    OPTIONAL_INPUT = True
+
+    def run(self):
+        self._trace('run')
+        self.out('v', self.inputs.get('v', 1))
+        self.out('g', 'v' in self.inputs)
+
+
 class ChainProc(_TracedMixin, plumpy.WorkChain):
     """A WorkChain that keeps its working data in the context (a saved member the running process goes on changing), with the
     usual 'only initialise what a checkpointed step did not leave behind' idiom."""
@@ -150,7 +167,7 @@ class ChainProc(_TracedMixin, plumpy.WorkChain):
         self.out('n', len(self.ctx.items))
 
 
-CLASSES = {'Fin': FinProc, 'Exc': ExcProc, 'Wait': WaitProc, 'Late': LateProc, 'Chain': ChainProc}
+CLASSES = {'Fin': FinProc, 'Exc': ExcProc, 'Wait': WaitProc, 'Late': LateProc, 'Chain': ChainProc, 'Opt': OptProc}
 DEFAULT_NAMES = {'%s:%s' % (c.__module__, c.__name__): k for k, c in CLASSES.items()}
 CUSTOM_NAMES = {'custom:%s' % k: k for k in CLASSES}
 
@@ -513,7 +530,7 @@ class World:
                     # look into the checkpoint the public way: recreate the process it describes (in a loop of its own)
                     twin = bundle.unbundle(plumpy.LoadSaveContext(loader=self.custom, loop=vloop.VLoop()))
                     val = self.decoded[raw] = (twin.pid, [getattr(twin, 'CLS', type(twin).__name__), scheme, LABEL[twin.state],
-                                                          str(twin.inputs.v), outs_of(twin.outputs), ctx_of(twin),
+                                                          ins_of(twin.inputs), outs_of(twin.outputs), ctx_of(twin),
                                                           err_of(twin, self.cfg['kind'])])
                 key = '%s/%s' % (self.mpid(cp.pid), 'None' if cp.tag is None else cp.tag)
                 if val[0] != cp.pid:
@@ -526,7 +543,7 @@ class World:
     def procs(self):
         out = []
         for p, m in zip(self.insts, self.meta):
-            out.append([self.mpid(p.pid), p.CLS, m['origin'], m['from'], LABEL[p.state], str(p.inputs.v), outs_of(p.outputs),
+            out.append([self.mpid(p.pid), p.CLS, m['origin'], m['from'], LABEL[p.state], ins_of(p.inputs), outs_of(p.outputs),
                         ctx_of(p), err_of(p, self.cfg['kind']), list(p._verif_steps)])
         return out
 
@@ -541,6 +558,13 @@ class World:
 
 def outs_of(d):
     return [[k, str(v)] for k, v in d.items()]
+
+
+def ins_of(inputs):
+    """The parsed inputs of a process (Process.inputs) as the list of its items; 'None' if the process has no mapping at all."""
+    if inputs is None:
+        return 'None'
+    return [[k, str(v)] for k, v in inputs.items()]
 
 
 def ctx_of(proc):
@@ -576,10 +600,10 @@ def project_model(S):
     st = S['store']
     if isinstance(st, dict):
         for key, snap in st.items():
-            store['%s/%s' % (key[0], key[1])] = [snap['cls'], snap['name'], snap['st'], snap['v'], norm(snap['outs']),
+            store['%s/%s' % (key[0], key[1])] = [snap['cls'], snap['name'], snap['st'], norm(snap['ins']), norm(snap['outs']),
                                                  norm(snap['ctx']), snap['err']]
     procs = [[p['pid'], p['cls'], p['origin'], [p['from']['st'], norm(p['from']['outs']), norm(p['from']['ctx']), p['from']['err']],
-              p['st'], p['v'], norm(p['outs']), norm(p['ctx']), p['err'], list(p['steps'])] for p in S['procs']]
+              p['st'], norm(p['ins']), norm(p['outs']), norm(p['ctx']), p['err'], list(p['steps'])] for p in S['procs']]
     return {'replies': [reply(r) for r in S['replies']], 'store': store, 'procs': procs,
             'log': [[e['task'], e['loader'], e['name'], e['cls']] for e in S['log']], 'looperr': []}
 
